@@ -242,8 +242,14 @@ func opCoalesce(r *hx.Run, kind string, arts []mLayer) *claircore.IndexReport {
 		switch kind {
 		case "linux":
 			checkNewestDB(r, arts, ir)
+			checkLinuxExact(r, arts, ir)
 		case "rhel":
 			checkRhelLast(r, arts, ir)
+			checkRhelExact(r, arts, ir)
+		case "lang", "gobin":
+			checkFileExact(r, kind, arts, ir)
+		case "wh":
+			checkWhExact(r, arts, ir)
 		}
 		countBranches(r, kind, arts, ir)
 	}
@@ -699,6 +705,209 @@ func checkRhelLast(r *hx.Run, arts []mLayer, ir *claircore.IndexReport) {
 		if len(es) != 1 {
 			r.Fail("", fmt.Sprintf("rhel-last-layer: package %s has %d environments; arts=%s", id, len(es), encArts(arts)))
 		}
+	}
+}
+
+// checkLinuxExact: statement of theorem linux_dist_choice on the real linux coalescer — an environment names
+// the first layer holding the package's (name, database, version) and the distribution of that layer, else of
+// the nearest earlier layer with one, else of the nearest later one.
+func checkLinuxExact(r *hx.Run, arts []mLayer, ir *claircore.IndexReport) {
+	for id, es := range ir.Environments {
+		p := ir.Packages[id]
+		if p == nil {
+			continue
+		}
+		for _, e := range es {
+			first := -1
+			for i, l := range arts {
+				for _, q := range l.Pkgs {
+					if q.Name == p.Name && q.Version == p.Version && q.DB == e.PackageDB {
+						first = i
+					}
+				}
+				if first >= 0 {
+					break
+				}
+			}
+			if first < 0 {
+				continue // reported by checkWellformed
+			}
+			if arts[first].Hash != nameOf(e.IntroducedIn.String()) {
+				r.Fail("", fmt.Sprintf("linux: package %s (db %s) introduced in %s, but the first layer holding its (name, database, version) is %s; arts=%s", id, e.PackageDB, nameOf(e.IntroducedIn.String()), arts[first].Hash, encArts(arts)))
+			}
+			want := ""
+			switch {
+			case len(arts[first].Dists) > 0:
+				want = arts[first].Dists[0]
+			default:
+				for j := first - 1; j >= 0 && want == ""; j-- {
+					if len(arts[j].Dists) > 0 {
+						want = arts[j].Dists[0]
+					}
+				}
+				for j := first + 1; j < len(arts) && want == ""; j++ {
+					if len(arts[j].Dists) > 0 {
+						want = arts[j].Dists[0]
+					}
+				}
+			}
+			if e.DistributionID != want {
+				r.Fail("", fmt.Sprintf("linux: package %s (db %s, introduced in layer %d) tagged with distribution %q; its layer's, else the nearest earlier, else the nearest later distribution is %q; arts=%s", id, e.PackageDB, first, e.DistributionID, want, encArts(arts)))
+			}
+		}
+	}
+}
+
+// checkRhelExact: theorems rhel_one_environment_per_id, rhel_env_exact, rhel_env_has_redhat_repository on the
+// real rhel coalescer.
+func checkRhelExact(r *hx.Run, arts []mLayer, ir *claircore.IndexReport) {
+	isRH := func(x mRepo) bool { return x.Key == "rhel-cpe-repository" }
+	anyRH := false
+	own := map[string]bool{}
+	rhIDs := map[string]bool{}
+	for _, l := range arts {
+		for _, x := range l.Repos {
+			own[x.ID] = true
+			if isRH(x) {
+				anyRH = true
+				rhIDs[x.ID] = true
+			}
+		}
+	}
+	var first string // the first distribution of any layer
+	for _, l := range arts {
+		if len(l.Dists) > 0 {
+			first = l.Dists[0]
+			break
+		}
+	}
+	for id, es := range ir.Environments {
+		if len(es) != 1 {
+			continue // reported by checkRhelLast
+		}
+		e := es[0]
+		li, cur := -1, first
+		for i, l := range arts {
+			if len(l.Dists) > 0 {
+				cur = l.Dists[0]
+			}
+			for _, q := range l.Pkgs {
+				if q.ID == id && q.DB == e.PackageDB {
+					li = i
+				}
+			}
+			if li >= 0 {
+				break
+			}
+		}
+		if li < 0 {
+			continue // checkWellformed
+		}
+		if arts[li].Hash != nameOf(e.IntroducedIn.String()) {
+			r.Fail("", fmt.Sprintf("rhel: package %s (db %s) introduced in %s, the first layer holding it there is %s; arts=%s", id, e.PackageDB, nameOf(e.IntroducedIn.String()), arts[li].Hash, encArts(arts)))
+		}
+		if e.DistributionID != cur {
+			r.Fail("", fmt.Sprintf("rhel: package %s tagged with distribution %q, the distribution current at its layer %d is %q; arts=%s", id, e.DistributionID, li, cur, encArts(arts)))
+		}
+		// repositories: the layer's own, then (if it has no Red Hat repository of its own) shared Red Hat ones
+		n := len(arts[li].Repos)
+		if len(e.RepositoryIDs) < n {
+			r.Fail("", fmt.Sprintf("rhel: package %s lost repositories of its layer: %v; arts=%s", id, e.RepositoryIDs, encArts(arts)))
+			continue
+		}
+		for k, x := range arts[li].Repos {
+			if e.RepositoryIDs[k] != x.ID {
+				r.Fail("", fmt.Sprintf("rhel: package %s: repository ids %v do not start with its layer's; arts=%s", id, e.RepositoryIDs, encArts(arts)))
+				break
+			}
+		}
+		hasRH := false
+		for k, rid := range e.RepositoryIDs {
+			if rhIDs[rid] {
+				hasRH = true
+			}
+			if k >= n && !rhIDs[rid] {
+				r.Fail("", fmt.Sprintf("rhel: package %s: shared repository %s is not a Red Hat repository of any layer; arts=%s", id, rid, encArts(arts)))
+			}
+		}
+		if anyRH && !hasRH {
+			r.Fail("", fmt.Sprintf("rhel: some layer carries a Red Hat repository, but package %s has none: %v; arts=%s", id, e.RepositoryIDs, encArts(arts)))
+		}
+		if !anyRH && len(e.RepositoryIDs) != n {
+			r.Fail("", fmt.Sprintf("rhel: no Red Hat repository anywhere, but package %s got repositories added: %v; arts=%s", id, e.RepositoryIDs, encArts(arts)))
+		}
+	}
+}
+
+// checkFileExact: the language / gobin coalescers report an id with the package and environment of the LAST
+// layer (with a repository / with a go: database) holding it.
+func checkFileExact(r *hx.Run, kind string, arts []mLayer, ir *claircore.IndexReport) {
+	want := map[string][3]string{} // id -> layer hash, db, repo ids
+	for _, l := range arts {
+		rs := ""
+		ok := true
+		if kind == "lang" {
+			if len(l.Repos) == 0 {
+				ok = false
+			}
+			var ids []string
+			for _, x := range l.Repos {
+				ids = append(ids, x.ID)
+			}
+			rs = strings.Join(ids, "+")
+		} else {
+			for _, x := range l.Repos {
+				if x.Name == "go" && x.URI == "https://pkg.go.dev/" {
+					rs = x.ID
+					break
+				}
+			}
+		}
+		if !ok {
+			continue
+		}
+		for _, p := range l.Pkgs {
+			if kind == "gobin" && !strings.HasPrefix(p.DB, "go:") {
+				continue
+			}
+			want[p.ID] = [3]string{l.Hash, p.DB, rs}
+		}
+	}
+	if len(want) != len(ir.Packages) {
+		r.Fail("", fmt.Sprintf("%s coalescer: reports %d ids, the layers hold %d; arts=%s", kind, len(ir.Packages), len(want), encArts(arts)))
+	}
+	for id, w := range want {
+		es := ir.Environments[id]
+		if len(es) != 1 {
+			r.Fail("", fmt.Sprintf("%s coalescer: id %s has %d environments; arts=%s", kind, id, len(es), encArts(arts)))
+			continue
+		}
+		got := [3]string{nameOf(es[0].IntroducedIn.String()), es[0].PackageDB, strings.Join(es[0].RepositoryIDs, "+")}
+		if got != w {
+			r.Fail("", fmt.Sprintf("%s coalescer: id %s reported as (layer, db, repositories) %v, the last layer holding it says %v; arts=%s", kind, id, got, w, encArts(arts)))
+		}
+	}
+}
+
+// checkWhExact: theorem whiteout_coalescer_keeps_last_file_per_digest.
+func checkWhExact(r *hx.Run, arts []mLayer, ir *claircore.IndexReport) {
+	want := map[string]mFile{}
+	for _, l := range arts {
+		for _, f := range l.Files {
+			want[l.Hash] = f
+		}
+	}
+	if len(want) != len(ir.Files) {
+		r.Fail("", fmt.Sprintf("whiteout coalescer: %d digests with files, %d reported; arts=%s", len(want), len(ir.Files), encArts(arts)))
+	}
+	for h, f := range ir.Files {
+		w, ok := want[nameOf(h)]
+		if !ok || w.Path != f.Path || w.Kind != string(f.Kind) {
+			r.Fail("", fmt.Sprintf("whiteout coalescer: under digest %s the report holds %v, the last file of the layers with that digest is %v; arts=%s", nameOf(h), f, w, encArts(arts)))
+		}
+	}
+	if len(ir.Packages)+len(ir.Environments) != 0 {
+		r.Fail("", "whiteout coalescer: reports packages; arts="+encArts(arts))
 	}
 }
 
